@@ -51,7 +51,6 @@ def check(ctx):
         "ordering/no-duplication across all interleavings of flusher threads (only the ticket pairing is decided)",
         "len()/index consistency across the memory/disk boundary for all op sequences (values)",
         "SQLite backend read-back; $HISTCONTROL filtering semantics",
-        "exception paths while a ticket is held (corrupt file): outside C12's quantifier, recorded as a note",
     ]
     ctx.rule("R1", "self-indexing container arithmetic: positions computed from JSON_FORMAT equal the constants used by dumps() and LazyJSON._load_index(); every literal appended in _to_json_with_size advances the offset by its length", floor=9)
     ctx.rule("R2", "offsets are character counts used as byte offsets: no json.dumps in the writer may emit non-ASCII (ensure_ascii=False)", floor=3)
